@@ -12,7 +12,8 @@
    [parse_inverts_isoformat] is an oracle hypothesis about iso8601 / datetime that the
    harness validates on every generated window. *)
 From AwVerif Require Import Base.Prelude Model.MemHeap Model.MemHeapQuery
-  Proofs.MemHeapBase Proofs.MemHeapCopy Proofs.MemHeapFrame Proofs.Ownership Proofs.MemHeapQueryProofs.
+  Proofs.MemHeapBase Proofs.MemHeapCopy Proofs.MemHeapFrame Proofs.Ownership Proofs.MemHeapQueryProofs
+  Proofs.MemHeapQueryRepeat.
 
 (* For every program (any sequence of datastore reads, built-in calls and raising
    statements; the run stops at the first step that raises, keeping whatever that step
@@ -104,4 +105,115 @@ Example C12_nonvacuous :
     [(1, Ok (T (TNode 7) [T (TNode EMPTY_DICT) []]),
       [Ok (T (TEv (Some 0) 1000 500) [T (TNode 5) []]);
        Ok (T (TEv (Some 1) 3000 500) [T (TNode 6) []])])].
+Proof. vm_compute. repeat split; reflexivity. Qed.
+
+(* ------------------------------------------------------------------------- *)
+(* Round 2.  The second sentence at EVERY position of a program.  A query is a list of
+   segments (Model/MemHeapQuery.v [run_windows]): a program may assign STARTTIME / ENDTIME
+   and its following statements then run under that namespace.  After any such segments
+   and any prefix of the current one -- earlier reads of the same bucket, built-ins that
+   changed what those reads handed out, a step that raised in between is the end of the
+   run -- the store's roots and content are those the query started with ... *)
+Theorem C12_store_unchanged_windows :
+  forall (str : Type) (parse_date : str -> option adt)
+         (builtin : Z -> list loc -> heap -> heap * option (list loc)),
+    builtins_confined builtin ->
+    forall (segs : list (namespace str * list qstep)) (s : state),
+      Sep s ->
+      Sep (run_windows str parse_date builtin segs s) /\
+      store (run_windows str parse_date builtin segs s) = store s /\
+      content_store (run_windows str parse_date builtin segs s) = content_store s.
+Proof. exact run_windows_kept. Qed.
+Print Assumptions C12_store_unchanged_windows.
+
+(* ... and query_bucket(b) under the window (st, en) hands out a list cell whose elements
+   unfold to the trees that the events selected from the store OF THE INITIAL STATE (all of
+   them, newest first, window [round_start st, round_end en]) unfold to in the INITIAL
+   heap; query_bucket_eventcount(b) is the count over [st, en] of the initial store. *)
+Theorem C12_query_bucket_at_any_position :
+  forall (str : Type) (isoformat : adt -> str) (parse_date : str -> option adt)
+         (builtin : Z -> list loc -> heap -> heap * option (list loc)),
+    builtins_confined builtin ->
+    parse_inverts_isoformat str isoformat parse_date ->
+    forall segs st en pre s0 b s2 r,
+      Sep s0 ->
+      let ns := query_namespace str isoformat st en in
+      q2_query_bucket str parse_date
+        (run_query str parse_date builtin ns pre (run_windows str parse_date builtin segs s0)) ns b
+        = Ok (s2, RRoot r) ->
+      exists bk vs ks ts,
+        find_bucket (store s0) b = Some bk /\
+        map_res (view (heap_of s0)) (b_events bk) = Ok vs /\
+        lookup (heap_of s2) r = Some (Cell (TNode EVENT_LIST) ks) /\
+        map_res (content_of (heap_of s2)) ks = Ok ts /\
+        map_res (content_of (heap_of s0))
+          (map v_root (select_events vs (-1) (Some (round_start st)) (Some (round_end en)))) = Ok ts.
+Proof. exact query_bucket_any_position. Qed.
+Print Assumptions C12_query_bucket_at_any_position.
+
+Theorem C12_eventcount_at_any_position :
+  forall (str : Type) (isoformat : adt -> str) (parse_date : str -> option adt)
+         (builtin : Z -> list loc -> heap -> heap * option (list loc)),
+    builtins_confined builtin ->
+    parse_inverts_isoformat str isoformat parse_date ->
+    forall segs st en pre s0 b s2 n,
+      Sep s0 ->
+      let ns := query_namespace str isoformat st en in
+      q2_query_bucket_eventcount str parse_date
+        (run_query str parse_date builtin ns pre (run_windows str parse_date builtin segs s0)) ns b
+        = Ok (s2, RInt n) ->
+      exists bk vs,
+        find_bucket (store s0) b = Some bk /\
+        map_res (view (heap_of s0)) (b_events bk) = Ok vs /\
+        n = count_events vs (Some (fst st)) (Some (fst en)).
+Proof. exact eventcount_any_position. Qed.
+Print Assumptions C12_eventcount_at_any_position.
+
+(* Two reads of one bucket under one window, whatever ran before each of them: equal trees. *)
+Theorem C12_query_bucket_repeatable :
+  forall (str : Type) (isoformat : adt -> str) (parse_date : str -> option adt)
+         (builtin : Z -> list loc -> heap -> heap * option (list loc)),
+    builtins_confined builtin ->
+    parse_inverts_isoformat str isoformat parse_date ->
+    forall segs1 pre1 segs2 pre2 st en s0 b sa ra sb rb,
+      Sep s0 ->
+      let ns := query_namespace str isoformat st en in
+      q2_query_bucket str parse_date
+        (run_query str parse_date builtin ns pre1 (run_windows str parse_date builtin segs1 s0)) ns b
+        = Ok (sa, RRoot ra) ->
+      q2_query_bucket str parse_date
+        (run_query str parse_date builtin ns pre2 (run_windows str parse_date builtin segs2 s0)) ns b
+        = Ok (sb, RRoot rb) ->
+      exists ka kb ts,
+        lookup (heap_of sa) ra = Some (Cell (TNode EVENT_LIST) ka) /\
+        lookup (heap_of sb) rb = Some (Cell (TNode EVENT_LIST) kb) /\
+        map_res (content_of (heap_of sa)) ka = Ok ts /\
+        map_res (content_of (heap_of sb)) kb = Ok ts.
+Proof. exact query_bucket_repeatable. Qed.
+Print Assumptions C12_query_bucket_repeatable.
+
+(* Non-vacuity: the bucket of [ex_state] is read, the list that was handed out is changed in
+   place twice (namespace entries 6, 7: tag 8 instead of EVENT_LIST), the program assigns
+   the window (0, 1500) and reads again (one event, count 1); a read under the first window
+   after all that hands out a new cell (28) with both events as stored, and the count is 2. *)
+Definition ex_ns_short : namespace adt := query_namespace adt (fun d => d) (0, 0) (1500, 0).
+Definition ex_segs : list (namespace adt * list qstep) :=
+  [(ex_ns, [QQueryBucket 1; QBuiltin 8 [6%nat]; QBuiltin 8 [7%nat]]);
+   (ex_ns_short, [QQueryBucket 1; QEventcount 1])].
+
+Example C12_repeat_nonvacuous :
+  let s' := run_windows adt ex_parse demo_builtin ex_segs ex_state in
+  content_store s' = content_store ex_state /\
+  option_map (content_of (heap_of s')) (nth_error (held s') 6) =
+    Some (Ok (T (TNode 8) [T (TEv (Some 1) 3000 500) [T (TNode 6) []];
+                           T (TEv (Some 0) 1000 500) [T (TNode 5) []]])) /\
+  option_map (content_of (heap_of s')) (nth_error (held s') 9) =
+    Some (Ok (T (TNode EVENT_LIST) [T (TEv (Some 0) 1000 500) [T (TNode 5) []]])) /\
+  (match q2_query_bucket adt ex_parse s' ex_ns 1 with
+   | Ok (s3, RRoot r) => Some (r, content_of (heap_of s3) r)
+   | _ => None
+   end) = Some (28%nat, Ok (T (TNode EVENT_LIST) [T (TEv (Some 1) 3000 500) [T (TNode 6) []];
+                                                  T (TEv (Some 0) 1000 500) [T (TNode 5) []]])) /\
+  (match q2_query_bucket_eventcount adt ex_parse s' ex_ns 1 with Ok (_, RInt n) => Some n | _ => None end) = Some 2 /\
+  (match q2_query_bucket_eventcount adt ex_parse s' ex_ns_short 1 with Ok (_, RInt n) => Some n | _ => None end) = Some 1.
 Proof. vm_compute. repeat split; reflexivity. Qed.
